@@ -538,13 +538,21 @@ pub fn on_cleaner_marker(wd: &World, id: u32, exit: bool) {
 
 /// State right after a panic was caught at the API boundary (C07).
 pub fn after_unwind(wd: &World, what: &str) {
+    if wd.fault_obj_mark.get() == u32::MAX {
+        wd.fault_obj_mark.set(wd.m.borrow().objs.len() as u32);
+    }
     match state::is_tracing().ok() {
         Some(false) => {}
         other => wd.err("C07", "is_tracing_after_unwind", format!("is_tracing_{:?}_after_unwind:{}", other, what), format!("after a panic unwound out of {}, state::is_tracing() = {:?}", what, other)),
     }
-    if let Some((c, f, d)) = verif::state_flags() {
-        if c {
-            wd.err("C07", "collecting_after_unwind", format!("collector_not_idle_after_unwind:{}", what), format!("after a panic unwound out of {}, the collector still reports collecting={} finalizing={} dropping={}", what, c, f, d));
+    // "the collector is left idle": once the panic has arrived at a top-level API boundary no collection, finalizer or
+    // destructor is running, so none of the collector's phase flags may still be set (a stuck flag makes later
+    // try_unwrap / finalize_again / Weak::upgrade / collect_cycles calls misbehave). Read through the hook.
+    if !wd.in_callback() {
+        if let Some((c, f, d)) = verif::state_flags() {
+            if c || f || d {
+                wd.err("C07", "collector_not_idle_after_unwind", format!("collector_not_idle_after_unwind:c{}f{}d{}", c as u8, f as u8, d as u8), format!("after a panic unwound out of {} to the top level, the collector still reports collecting={} finalizing={} dropping={}", what, c, f, d));
+            }
         }
     }
     // executions_count may have moved by a collection that unwound: resynchronise, it is judged by C07's own probe
@@ -860,7 +868,9 @@ pub fn upgrade_expectation(wd: &World, t: WT) -> Expect {
                     if hmin == 0 && !releasing {
                         return Expect::Either("no_definite_holder");
                     }
-                    if wd.degraded.get() {
+                    // after a caught panic the objects that existed then may have been leaked in any state (their
+                    // Weaks may refuse for good); objects created afterwards are not involved and are judged fully
+                    if wd.degraded.get() && id < wd.fault_obj_mark.get() {
                         return Expect::Either("degraded");
                     }
                     if wd.in_collection.get() && wd.coll_drop_phase.get() && !m.reach().contains(&id) {
